@@ -36,9 +36,13 @@ Execute(ok) == /\ phase = "compiled"
                /\ last' = IF ok THEN "ExecOk" ELSE "ExecErr"
                /\ UNCHANGED phase
 NewSource == phase' = "fresh" /\ last' = ""
-ApiNext == (\E ok \in BOOLEAN : Compile(ok) \/ Execute(ok)) \/ NewSource
+\* the set's earlier history: another template of the set is fetched through the cache before the source is compiled
+Warm(ok) == /\ phase = "fresh"
+            /\ last' = IF ok THEN "WarmOk" ELSE "WarmErr"
+            /\ UNCHANGED phase
+ApiNext == (\E ok \in BOOLEAN : Compile(ok) \/ Execute(ok) \/ Warm(ok)) \/ NewSource
 \* every call returns one of the two documented outcomes
-OutcomeTotal == last \in {"", "CompileOk", "CompileErr", "ExecOk", "ExecErr"}
+OutcomeTotal == last \in {"", "CompileOk", "CompileErr", "ExecOk", "ExecErr", "WarmOk", "WarmErr"}
 ExecOnlyAfterCompile == [][last' \in {"ExecOk", "ExecErr"} => phase = "compiled"]_apiVars
 
 ----------------------------------------------------------------------------
@@ -89,7 +93,7 @@ BuiltinShapes ==
     <<"{% autoescape off %}", "<Body>", "{% endautoescape %}">>,
     <<"{% spaceless %}", "<Body>", "{% endspaceless %}">>,
     <<"{% block b %}", "<Body>", "{{ block.Super }}{% endblock %}">>,
-    <<"{% include ", "<Expr>", " with a=", "<Expr>", " only %}">>, <<"{% include \"/inc\" if_exists %}">>, <<"{% include \"/self\" %}">>,
+    <<"{% include ", "<Expr>", " with a=", "<Expr>", " only %}">>, <<"{% include selfname %}">>, <<"{% include laname if_exists %}">>, <<"{% include \"/la\" %}{% include \"/lazyself\" %}">>, <<"{% include \"/inc\" if_exists %}">>, <<"{% include \"/self\" %}">>,
     <<"{% extends \"/base\" %}{% block b %}", "<Body>", "{% endblock %}">>, <<"{% extends ", "<Expr>", " %}">>,
     <<"{% import \"/lib\" lm, lm as z %}{{ z(", "<Args>", ") }}">>,
     <<"{% ssi \"/inc\" parsed %}">>, <<"{% ssi \"/inc\" %}">>,
